@@ -19,6 +19,9 @@ ob("vl_VSattach", ["C13", "C14", "C16"], entry="h_vl_VSattach", enforce="VSattac
 # the state left out above: "r" on a vdata that is attached "w" (clause A1 / A9)
 ob("vl_VSattach_r_on_w", ["C13"], entry="h_vl_VSattach", enforce="VSattach", defines=["VL_R_ON_W"], trusted=VLTR, **VL)
 
+# creation of a new vdata: VSattach(f, -1, mode); harness-level checks
+ob("vl_VSattach_new", ["C13", "C14", "C16"], entry="h_vl_VSattach_new", trusted=VLTR, **VL)
+
 # ---- VSdetach: single call, any int32 as id.  nusym == 0 is fixed by the environment (the symbol-freeing loop of the "w" path
 # is not entered: --unwindset ...:1 + unwinding assertion shows that); vpackvs replaced by its (trusted) contract.
 # (the global --unwind would also cut the loops of the dfcc library that checks the replaced contract's frame: --unwindset instead)
@@ -28,14 +31,9 @@ VD = dict(entry="h_vl_VSdetach", enforce="VSdetach", replace=["vpackvs"], flags=
 ob("vl_VSdetach", ["C13", "C16", "C07"], **VD)
 # C13 in full: EVERY successful VSdetach invalidates the id it was given
 ob("vl_VSdetach_release", ["C13"], defines=["VL_STRICT"], **VD)
-# the real vpackvs on a vdata with the empty schema (no fields, empty name/class, no attributes): the length handed to
-# Hputelement is the length a dry run of vpackvs reports
-ob("vl_VSdetach_realpack", ["C16", "C07"], entry="h_vl_VSdetach", enforce="VSdetach", defines=["VL_REAL_PACK"], unwind=3, mode="bounded",
-   bound="empty schema (0 fields, empty name and class, flags 0), nusym == 0; real vpackvs", trusted=VLTR, tier="thorough", **VL)
-
 # ---- bounded histories (harness-level checks); the "w" path of VSdetach is never taken (unwinding assertion of its loop included)
 HNOSYM = ["--unwindset", "VSdetach.0:1", "--unwinding-assertions"]
-ob("vl_history", ["C13"], entry="h_vl_history", mode="bounded", bound="history of 5 calls: attach r, attach r, detach, detach (either order), detach(stale)",
+ob("vl_history", ["C13"], entry="h_vl_history", mode="bounded", bound="history of 5 calls: attach r, attach r, detach, detach (either order), detach(stale); one representative ref, start state: not attached",
    replace=["vpackvs"], flags=HNOSYM, trusted=VLTR + PACK, **VL)
 ob("vl_history_release", ["C13"], entry="h_vl_history", defines=["VL_STRICT"], mode="bounded",
-   bound="history of 6 calls: attach r, attach r, detach, detach (either order), detach(stale), detach(stale)", replace=["vpackvs"], flags=HNOSYM, trusted=VLTR + PACK, **VL)
+   bound="history of 6 calls: attach r, attach r, detach, detach (either order), detach(stale), detach(stale); one representative ref, start state: not attached", replace=["vpackvs"], flags=HNOSYM, trusted=VLTR + PACK, **VL)
